@@ -931,7 +931,7 @@ func (f *Frame) doPanic(x *ssa.Panic, reach string, st *State) {
 }
 
 func (e *Eng) panicWhitelist() []string {
-	return []string{"repeated read on failed websocket connection", "concurrent write to websocket connection", "blocking select matched no case"}
+	return []string{"repeated read on failed websocket connection", "blocking select matched no case"}
 }
 
 // ---------------------------------------------------------------------------
